@@ -112,7 +112,8 @@ def gen_case(rnd, tier, index):
     # (outputs=None: every formula cell is checked, reachability does not come into it)
     knobs['computed_refs'] = wrnd.random() < 0.3
     spec = wbgen.generate(wrnd, knobs)
-    if wrnd.random() < 0.12:
+    alias = wrnd.random() < 0.12
+    if alias:
         wbgen.add_alias_gadget(wrnd, spec)     # cells with coordinates inside a range of another sheet
     # known finding KF2: with iterative calculation validate_calcs recalculates the precedents
     # of the cell it checks, which destroys their stored results before they are compared.
@@ -165,6 +166,19 @@ def gen_case(rnd, tier, index):
         cfg['sheet'] = rnd.choice(fsheets)
     elif cfg['outputs'] and roll < 0.2:
         cfg['verify_tree'] = False
+    if alias and cfg.get('site') and rnd.random() < 0.5:
+        # the cell on the other sheet is the site, reached only by following what the reader
+        # of the range declares
+        main = next(s_ for s_ in spec['sheets'] if s_ != spec.get('data_sheet'))
+        cfg['site'] = 'Al2!B2'
+        cfg.pop('site2', None)
+        if rnd.random() < 0.5:
+            cfg['outputs'], cfg['output_form'] = [f'{main}!B65'], 'list'
+            cfg.pop('sheet', None)
+        else:
+            cfg['outputs'], cfg['output_form'] = None, None
+            cfg['sheet'] = main
+        cfg.pop('verify_tree', None)
     cfg['corrupt_seed'] = rnd.randrange(1 << 30)
     # what the compiler did before it was asked to validate: cells evaluated (part of the graph
     # exists, the rest is built by validate_calcs), inputs assigned the value they already hold
